@@ -250,11 +250,18 @@ def run_session(setup, queue, plan, events, seg, with_events=True, post_ops=()):
                 cs = [buf[i:i + 1] for i in range(len(buf))]
             elif seg[0] == 'cut' and 0 < seg[1] < len(buf):
                 cs = [buf[:seg[1]], buf[seg[1]:]]
+            elif seg[0] == 'cutsubmit' and 0 < seg[1] < len(buf):
+                # the application submits a command between two segments of the event
+                cs = [buf[:seg[1]], ('submit', seg[2]), buf[seg[1]:]]
             else:
                 cs = [buf]
             for c in cs:
                 if ctl.wire.lost_seq is not None:
                     break
+                if isinstance(c, tuple):
+                    sub = ctl.submit(c[1])
+                    shapes[sub.line] = REPLY_SHAPES[0]
+                    continue
                 ctl.deliver(c)
                 steps += 1
         # post operations (subs family), then drain: answer everything still unanswered
@@ -460,6 +467,7 @@ def tasks(tier, seed):
     depth = 4 if tier == 'quick' else 5
     for first in range(8):
         out.append(('subs', first, depth))
+    out.append(('midsubmit',))
     return out
 
 
@@ -478,6 +486,28 @@ def route_one(setup, queue, plan, evs, seg, base=None):
         r['viol'].append(('reply-changed-by-event', '%s/%s' % (k_inflight, '+'.join(forms)),
                           'with events %r, without %r' % (r['cmd_obs'], base['cmd_obs'])))
     return r
+
+
+def run_midsubmit(acc):
+    """one event of every form, cut at every byte offset, a command submitted by the application between the two segments (the
+    queue is idle): the event is delivered once with its exact payload, the command resolves as it would without the event"""
+    setup = [(SUB, 'rec'), ('GUARD', 'rec')]
+    for kind in ('P', 'K'):
+        base = run_session(setup, kind, ('r',), [], ('sep',), with_events=False)
+        for fk in sorted(EVENT_FORMS):
+            for name in (SUB, UNSUB):
+                data = make_event(0, name, fk)[0]
+                for cut in range(1, len(data)):
+                    seg = ('cutsubmit', cut, kind)
+                    r = run_session(setup, '', ('e',), [(name, fk)], seg)
+                    if r['cmd_obs'] != base['cmd_obs'] and not r['viol']:
+                        r['viol'].append(('reply-changed-by-event', 'submitted-between-segments/%s' % EVENT_FORMS[fk][0],
+                                          'with the event %r, without %r' % (r['cmd_obs'], base['cmd_obs'])))
+                    r['viol'] = [(c, f if 'between-segments' in f else f + '/command-submitted-between-segments', d) for c, f, d in r['viol']]
+                    acc.execution(key=('midsubmit', kind, fk, name, cut), outcome='midsubmit/' + ('/'.join(sorted(set(v[0] for v in r['viol']))) or 'ok'),
+                                  nontrivial=True, steps=r['steps'])
+                    violations_to_acc(acc, r, dict(family='midsubmit', setup=[list(x) for x in setup], queue='', plan=['e'], events=[[name, fk]],
+                                                   seg=list(seg), kind=kind), cost=20 + cut)
 
 
 def run_route(cases, acc, tier):
@@ -627,6 +657,8 @@ def run_task(param, acc):
         run_listen(list(itertools.product(BEHAVIOURS, repeat=param[1])), acc)
     elif param[0] == 'subs':
         run_subs(param[1], param[2], acc)
+    elif param[0] == 'midsubmit':
+        run_midsubmit(acc)
 
 
 def replay(p):
@@ -638,6 +670,13 @@ def replay(p):
     seg = tuple(p['seg'])
     if p['family'] == 'route':
         r = route_one(setup, p['queue'], tuple(p['plan']), evs, seg)
+    elif p['family'] == 'midsubmit':
+        base = run_session(setup, p['kind'], ('r',), [], ('sep',), with_events=False)
+        r = run_session(setup, '', ('e',), evs, seg)
+        if r['cmd_obs'] != base['cmd_obs'] and not r['viol']:
+            r['viol'].append(('reply-changed-by-event', 'submitted-between-segments/%s' % EVENT_FORMS[evs[0][1]][0],
+                              'with the event %r, without %r' % (r['cmd_obs'], base['cmd_obs'])))
+        r['viol'] = [(c, f if 'between-segments' in f else f + '/command-submitted-between-segments', d) for c, f, d in r['viol']]
     else:
         r = run_session(setup, p['queue'], tuple(p['plan']), evs, seg)
     return dict(violations=[dict(signature='%s/%s' % (c, f), what=d) for c, f, d in r['viol']],
